@@ -2,6 +2,7 @@ package props
 
 import (
 	"go/token"
+	"strings"
 
 	"golang.org/x/tools/go/ssa"
 
@@ -141,6 +142,15 @@ func c06(r *Report) {
 	r.Gate(Gate{ID: "C06.addsingle.root-unique", Fn: as, Effect: CallEffect(put),
 		Check: CmpCheck("getRoots(lc) == nil", token.EQL, CallV(Fn(dag, "", "getRoots"), -1), NilV(), true),
 		Alt:   []Check{CmpCheck("len(Previous()) == 0 is false", token.EQL, LenV(AnyV()), IntV(0), false)}})
+	if cs, ok := p.ConstValue(dag, "clockShelf"); !ok {
+		r.Lost("C06.addsingle.root-lookup-on-clock-shelf", "ARG", "constant clockShelf not found")
+	} else {
+		r.ArgIs("C06.addsingle.root-lookup-on-clock-shelf", as, Fn(dag, "", "getRoots"), 0, ShelfOfV(strings.Trim(cs, "\"")), 1)
+	}
+	if ts, ok := p.ConstValue(dag, "transactionsShelf"); ok {
+		r.ArgIs("C06.addsingle.exists-on-transactions-shelf", as, Fn(dag, "", "exists"), 0, ShelfOfV(strings.Trim(ts, "\"")), 1)
+		r.ArgIs("C06.addsingle.exists-for-this-ref", as, Fn(dag, "", "exists"), 1, CallV(Fn(dag, "Transaction", "Ref"), -1), 1)
+	}
 	r.Gate(Gate{ID: "C06.addsingle.clock-index", Fn: as, Effect: CallEffect(put), Check: ErrCheck(Fn(dag, "", "indexClockValue"))})
 	r.Gate(Gate{ID: "C06.dag.add.each", Fn: p.Func(dag, "dag", "add"), Effect: SuccessReturn(), Check: ErrCheck(Fn(dag, "dag", "addSingle")), ForEach: true,
 		Skip: []Check{CmpCheck("transaction == nil", token.EQL, AnyV(), NilV(), true)}})
